@@ -94,11 +94,15 @@ class Walker:
             return self._for(r, sid)
         if op == "switch_stmt":
             return self._switch(r, sid)
+        if op == "try_stmt":
+            return self._try(r, sid)
+        if op == "throw_stmt":
+            return [([(sid, "seq")], "raise")]
         if op == "break_stmt":
             return [([(sid, "seq")], "break")]
         if op == "continue_stmt":
             return [([(sid, "seq")], "continue")]
-        if op in ("return_stmt", "throw_stmt"):
+        if op == "return_stmt":
             return [([(sid, "seq")], "return")]
         return [([(sid, "seq")], "fall")]
 
@@ -232,6 +236,42 @@ class Walker:
             paths = self._seq([([], "fall")], self.block_paths(pre), tag + ">for.prebody")
             return self._seq(paths, [([(sid, "for.prebody>header")], "fall")])
         return [([(sid, tag + ">for.header")], "fall")]
+
+    # -- try ----------------------------------------------------------------------------------
+    def _try(self, r, sid):
+        """Only explicit throw statements raise.  A raise in the body goes to any catch clause (uncaught if there is none);
+        normal completion runs else_body; final_body runs on every way out, before a pending jump continues."""
+        head = [([(sid, "seq")], "fall")]
+        body = self._seq(head, self.block_paths(r.get("body")), "try.body")
+        clauses = [c for c in self.prog.block(r.get("catch_body")) if c["operation"] in ("catch_clause", "catch_stmt")]
+        has_final = not isnull(r.get("final_body")) and bool(self.prog.block(r.get("final_body")))
+        before_final = []       # (trace, pending outcome, tag for the first statement of final / of what follows)
+        for t, o in body:
+            if o == "fall":
+                if not isnull(r.get("else_body")) and self.prog.block(r.get("else_body")):
+                    for t2, o2 in self._seq([(t, "fall")], self.block_paths(r.get("else_body")), "try.else"):
+                        before_final.append((t2, o2, "after:try.else" if o2 == "fall" else "try.final-before-" + o2))
+                else:
+                    before_final.append((t, "fall", "after:try.body"))
+            elif o == "raise":
+                for c in clauses:
+                    cp = self._seq([(t + [(int(c["stmt_id"]), "try.catch")], "fall")], self.block_paths(c.get("body")), "try.catch-body")
+                    for t2, o2 in cp:
+                        before_final.append((t2, o2, "after:try.catch" if o2 == "fall" else "try.final-before-" + o2))
+                if not clauses:
+                    # the generated handlers catch everything (except Exception / catch (Exception ex) / catch (ex)),
+                    # so a raise is uncaught only when the try has no handler at all
+                    before_final.append((t, "raise", "try.final-before-raise"))
+            else:
+                before_final.append((t, o, "try.final-before-" + o))
+        results = []
+        for t, o, tag in before_final:
+            if not has_final:
+                results.append((t, o))
+                continue
+            for t2, o2 in self._seq([(t, "fall")], self.block_paths(r.get("final_body")), tag):
+                results.append((t2, o if o2 == "fall" else o2))
+        return self._cap(results)
 
     # -- switch -------------------------------------------------------------------------------
     def _switch(self, r, sid):
